@@ -143,6 +143,20 @@ func resolveSide(p *Prog, owner string) *taskSide {
 	if len(s.gos) == 0 {
 		undecided("anchor unresolved: no go statement in io.%s.processBlock (or in exactly one helper of it)", owner)
 	}
+	if s.parent != s.entry {
+		// the recognised helper shape is "launch one batch and wait": the helper that starts the tasks also joins them.
+		// A helper that only starts them (Wait stays in the caller) splits the obligations of most protocol rules over
+		// two functions; that shape is not modelled, and saying so is better than judging half a function.
+		hasWait := false
+		eachInstr(s.parent, func(i ssa.Instruction) {
+			if c := callOf(i); c != nil && isMethodNamed(c, "sync", "WaitGroup", "Wait") {
+				hasWait = true
+			}
+		})
+		if !hasWait {
+			undecided("io.%s: the go statements of a batch are in %s but the WaitGroup.Wait is not: launch structure not recognised (start and join of a batch in different functions)", owner, s.parent.Name())
+		}
+	}
 	for _, g := range s.gos {
 		f := g.Call.StaticCallee()
 		if f == nil || f.Blocks == nil {
@@ -623,7 +637,10 @@ func ruleToken(p *Prog, r *RuleResult) {
 				}
 			}
 			walk(st.Val, 0)
-			if hasPhi && hasOne && hasBase && staleBase(p, s, st.Val, resolve) {
+			if hasPhi && hasOne && hasBase && liveBase(p, s, st.Val, resolve) {
+				idOK = true
+				r.fail(p.FnName(s.parent)+"#task-id-live-base", p.IPos(st), "the base block id of a batch is read from the shared counter after tasks of the batch were already started: a task that finishes early advances the counter, the tasks created after that get ids with a hole in front of them and wait forever for a predecessor that does not exist (Write/Read/Close never return, nothing is reported)")
+			} else if hasPhi && hasOne && hasBase && staleBase(p, s, st.Val, resolve) {
 				idOK = true
 				r.fail(p.FnName(s.parent)+"#task-id-stale-base", p.IPos(st), "the base block id of a batch is read before the retry loop: when a whole batch was skipped and the loop starts another one, the new tasks get the ids of the previous batch and wait forever for a counter value that has already passed")
 			} else if hasPhi && hasOne && hasBase {
@@ -1376,6 +1393,51 @@ func derivesFromValue(v, target ssa.Value, d int) bool {
 
 // staleBase: the load of the parent's block counter that feeds the task ids can be bypassed on a path from a Wait
 // back to a go statement (a retry loop that does not re-read the counter).
+// liveBase: a load of the shared counter that feeds the task id can execute after a go statement of the batch and
+// before the Wait (i.e. while tasks that advance the counter are running).
+func liveBase(p *Prog, s *taskSide, v ssa.Value, resolve func(ssa.Value) ssa.Value) bool {
+	var loads []ssa.Instruction
+	seen := map[ssa.Value]bool{}
+	var walk func(v ssa.Value, d int)
+	walk = func(v ssa.Value, d int) {
+		if d > 8 || seen[v] {
+			return
+		}
+		seen[v] = true
+		v = resolve(v)
+		switch x := v.(type) {
+		case *ssa.BinOp:
+			walk(x.X, d+1)
+			walk(x.Y, d+1)
+		case *ssa.Convert:
+			walk(x.X, d+1)
+		case *ssa.UnOp:
+			if fv := fieldVarOfLoad(x); fv != nil && x.Parent() == s.parent && fv == s.parentCounter {
+				loads = append(loads, x)
+			}
+		case *ssa.Call:
+			if isAtomic(&x.Call, "LoadInt32") && len(x.Call.Args) > 0 && fieldVarOfAddr(x.Call.Args[0]) == s.parentCounter && x.Parent() == s.parent {
+				loads = append(loads, x)
+			}
+		}
+	}
+	walk(v, 0)
+	waits := map[ssa.Instruction]bool{}
+	eachInstr(s.parent, func(i ssa.Instruction) {
+		if c := callOf(i); c != nil && isMethodNamed(c, "sync", "WaitGroup", "Wait") {
+			waits[i] = true
+		}
+	})
+	for _, l := range loads {
+		for _, g := range s.gos {
+			if g.Parent() == s.parent && pathAvoiding(g.Block(), instrIndex(g)+1, l, waits) {
+				return true
+			}
+		}
+	}
+	return false
+}
+
 func staleBase(p *Prog, s *taskSide, v ssa.Value, resolve func(ssa.Value) ssa.Value) bool {
 	var loads []ssa.Instruction
 	seen := map[ssa.Value]bool{}
